@@ -984,6 +984,8 @@ func exec1(c px.Context, op string, args []sx.Sexp) core.Result {
 		return res
 	case "teq", "teq3":
 		return execTypes(c, op, args)
+	case "tstype": // implementation only: Timestamp TYPES built through the API with bounds in given time zones (SECS NANOS OFFA OFFB)
+		return execTimestampTypes(args)
 	case "objcheck": // implementation only: objectType.Equals on catalogue types = equality of their descriptors
 		if why, ok := objCheck(c); !ok {
 			return core.Fail("mismatch", "harness-object-mismatch", why)
@@ -1054,7 +1056,11 @@ func execTypes(c px.Context, op string, args []sx.Sexp) core.Result {
 		both := args[0].MustStr() + args[1].MustStr()
 		_, cx := x.(*types.CallableType)
 		_, cy := y.(*types.CallableType)
-		if cx && cy {
+		_, ux := x.(*types.UriType)
+		_, uy := y.(*types.UriType)
+		if ux && uy {
+			class = "uri-type-param-order" // UriType.Equals compares the parts as a Hash (any order), the key lists them in the order given
+		} else if cx && cy {
 			class = "callable-all-equal" // CallableType.Equals answers true for any two Callable types
 		} else if strings.Contains(both, "Variant") || strings.Contains(both, "Enum") || strings.Contains(both, "Pattern") {
 			class = "type-member-order"
@@ -1062,6 +1068,48 @@ func execTypes(c px.Context, op string, args []sx.Sexp) core.Result {
 		return core.Fail(out, class, "Equals but the keys differ")
 	}
 	return res
+}
+
+// execTimestampTypes: the laws on two Timestamp types whose lower bound is the SAME instant written in two time zones (reachable
+// through types.NewTimestampType only).  TimestampType.Equals compares instants, Parameters() prints the bound with its zone: known
+// finding C07-timestamp-type-zone-key (class computed from the mechanism: Equal, keys differ, and the two zones differ)
+func execTimestampTypes(args []sx.Sexp) core.Result {
+	secs, nanos, offA, offB := args[0].MustInt(), args[1].MustInt(), int(args[2].MustInt()), int(args[3].MustInt())
+	zone := func(off int) *time.Location {
+		if off == 0 {
+			return time.UTC
+		}
+		return time.FixedZone(fmt.Sprintf("z%d", off), off)
+	}
+	mkT := func(off int) px.Type { return types.NewTimestampType(time.Unix(secs, nanos).In(zone(off)), types.MaxTime) }
+	x, y := mkT(offA), mkT(offB)
+	xy, yx := equals(x, y), equals(y, x)
+	out := xy + " " + yx
+	if xy == "fault" || yx == "fault" {
+		return core.Fail(out, "types-equals-fault", "Equals faulted")
+	}
+	if xy != yx {
+		return core.Fail(out, "types-asymmetric", "x.Equals(y)="+xy+" y.Equals(x)="+yx)
+	}
+	kx, okx := keyOf(x)
+	ky, oky := keyOf(y)
+	if !strings.HasPrefix(okx, "x") || !strings.HasPrefix(oky, "x") {
+		return core.Fail(out, "types-key-fault", "ToKey: "+okx+" / "+oky)
+	}
+	if k2, _ := keyOf(mkT(offA)); k2 != kx {
+		return core.Fail(out, "types-copy-key-differs", "a separately built copy has another key")
+	}
+	if kx == ky && xy != "t" {
+		return core.Fail(out, "types-key-equal-for-unequal", "same key "+okx+" but Equals="+xy)
+	}
+	if kx != ky && xy == "t" {
+		class := "types-key-differs-for-equal"
+		if offA != offB {
+			class = "timestamp-type-zone-key"
+		}
+		return core.Fail(out, class, "Equals but the keys differ: "+okx+" / "+oky)
+	}
+	return core.Result{Out: out, Pred: "ok", NonTrivial: true, Tags: []string{"tstype:" + xy}}
 }
 
 // typeExprs: type expressions over the kinds the model does not cover (and a few it does, for cross-kind pairs)
@@ -1081,6 +1129,9 @@ var typeExprs = []string{
 	"Object", "Object[{name=>'A',attributes=>{a=>Integer}}]", "Object[{name=>'A',attributes=>{a=>String}}]", "Object[{name=>'B',attributes=>{a=>Integer}}]",
 	"TypeSet", "Deferred",
 	"SemVer['1.x']", "SemVer['2.x']", "SemVer['>=1.0.0 <2.0.0']", "SemVer['1.2.3']",
+	"Struct[{a=>Integer,b=>String}]", "Struct[{\"a\\u{3}\\u{c}\\u{1}t\\u{9}\\u{1}sIntegerb\"=>String}]", "Struct[{Optional[a]=>Integer}]", "Struct[{\"Optional['a']\"=>Integer}]",
+	"Struct[{NotUndef[a]=>Optional[Integer]}]", "Struct[{\"NotUndef['a']\"=>Optional[Integer]}]", "Struct[{a=>Integer,b=>Integer}]", "Struct[{b=>Integer,a=>Integer}]",
+	"URI[{scheme=>'http'}]", "URI[{scheme=>'http',host=>'a'}]", "URI['http://a']", "URI[{host=>'a',scheme=>'http'}]",
 	"Callable[Unit,String]", "Callable[String,1,1]", "Callable[String,Unit]", "Callable[Tuple[Unit]]", "Callable[Tuple]", "Callable[0,0]", "Callable[[String],Integer]", "Callable[String,Callable]",
 	"Runtime['', 'x']", "Runtime['', 'y']", "Runtime['ruby', 'x']", "Runtime['ruby', 'y']", "Runtime['ruby', 'x', Regexp[/y/]]", "Runtime['ruby', 'x', Regexp[/z/]]", "Runtime['ruby']",
 }
@@ -2010,6 +2061,16 @@ func gen(g *core.G) {
 	// a string holding the key bytes of each (the raw-string class)
 	ku := kindUniverse()
 	g.Emit("@objcheck")
+	for _, s := range []int64{0, 1000, -1, 1500000000} { // Timestamp types with one instant as their bound, written in two zones
+		for _, n := range []int64{0, 5} {
+			for _, oa := range []int64{0, 3600, -18000} {
+				for _, ob := range []int64{0, 3600, -18000} {
+					g.Emit(fmt.Sprintf("@tstype %d %d %d %d", s, n, oa, ob))
+				}
+			}
+			g.Emit(fmt.Sprintf("@tstype %d %d 0 0", s+1, n)) // and against another instant: not Equal, other key
+		}
+	}
 	ku = append(ku, objUniverse()...)
 	for _, row := range rangeTable() { // the range table itself: the stated ranges are what each spelling parses to
 		for _, o := range row.origs {
